@@ -346,6 +346,9 @@ def check_buffer_ops(ctx, tu, sy, f, counts):
     counts[R2] += 1
 
     if name == 'push_back':
+        side = set()        # (other member container, call) the element was appended to on some path
+
+        # state: appends to the buffer (0, 1, 2 = more) + 100 if the element went to another member container on this path
         def transfer(blk, i, e, st):
             if i == 0:
                 cur['at'] = (blk.id, st)
@@ -356,12 +359,20 @@ def check_buffer_ops(ctx, tu, sy, f, counts):
                 found.und(R2, 'push_back delegates to the member %s(): not modelled' % own_call(tu, n, BUF), n)
             bc = buffer_call(tu, sy, n, fld)
             if bc is None:
+                # the element appended to *another* member container of this object
+                if n.get('kind') == 'CXXMemberCallExpr':
+                    s_, obj, args = tu.call_parts(n)
+                    of = sy.field(obj) if obj is not None else None
+                    if of is not None and of[0] == BUF and of != fld and sy.base_is_this(obj) and last(s_.get('q')) in APPEND + ('insert', 'emplace') \
+                            and args and params and any(mentions_any(sy, a, params) for a in args):
+                        side.add((of[1], n['id']))
+                        return [st + 100 if st < 100 else st]
                 return [st]
             nm, args, const = bc
             if nm in APPEND:
                 if not (args and params and mentions_any(sy, args[0], params)):
                     found.viol(R2, FN, 'appends-other-value', 'push_back appends something other than its argument', n)
-                return [min(st + 1, 2)]
+                return [st + 1 if st % 100 < 2 else st]
             if const or nm in NEUTRAL:
                 return [st]
             if nm in ('insert', 'emplace'):
@@ -370,11 +381,11 @@ def check_buffer_ops(ctx, tu, sy, f, counts):
                     pe = tu.strip(tu.kids(pe)[0], casts=True)       # iterator -> const_iterator conversion
                 pos = buffer_call(tu, sy, pe, fld) if pe is not None else None
                 if pos is not None and pos[0] in ('end', 'cend') and len(args) == 2 and params and mentions_any(sy, args[1], params):
-                    return [min(st + 1, 2)]
+                    return [st + 1 if st % 100 < 2 else st]
                 if pos is not None and pos[0] in ('begin', 'cbegin'):
                     found.viol(R2, FN, 'inserts-not-at-end', 'push_back inserts at the front of the buffer: elements of one producer are '
                                'consumed in reverse push order', n)
-                    return [min(st + 1, 2)]
+                    return [st + 1 if st % 100 < 2 else st]
                 found.und(R2, 'positional %s on the buffer: append-equivalence not modelled' % nm, n)
                 return [st]
             if nm in DESTRUCTIVE:
@@ -388,7 +399,15 @@ def check_buffer_ops(ctx, tu, sy, f, counts):
         for (st, _rv, via) in outs:
             if g.blocks[via].noret:
                 continue
-            if st == 0:
+            if st >= 100:
+                other = sorted({x[0] for x in side})
+                nid = sorted(side)[0][1]
+                found.viol(R2, FN, 'element-in-second-container', 'on some path push_back appends the element to the member container %s '
+                           'instead of (or besides) the buffer: the hand-off then runs through two sequences, and however consume() '
+                           'concatenates them, two elements pushed by one producer - the earlier one parked in %s, the later one '
+                           'appended to the buffer - are delivered out of push order' % (', '.join(other), ', '.join(other)),
+                           tu.node(nid), exit_at(res, via))
+            elif st == 0:
                 found.viol(R2, FN, 'element-dropped', 'a path through push_back returns without appending the element', None, exit_at(res, via))
             elif st > 1:
                 found.viol(R2, FN, 'element-duplicated', 'a path through push_back appends the element more than once', None, exit_at(res, via))
@@ -836,6 +855,12 @@ def check_assign(ctx, tu, sy, f, counts):
             found.viol(R4, FN, 'flag-without-value', 'assignment sets the flag in a lock scope that does not store the value', node)
         return (locks, known, False, False, done or (q and fl))
 
+    def may_throw(node):
+        """can the value store leave by an exception?  (built-in assignment cannot; a call can unless declared noexcept)"""
+        if node.get('kind') in ('CXXOperatorCallExpr', 'CXXMemberCallExpr', 'CallExpr'):
+            return 'noexcept' not in (tu.sd(node).get('fty') or '').rsplit(')', 1)[-1]
+        return False
+
     # state: (locks, known, queued_in_scope, flagged_in_scope, done)
     def transfer(blk, i, e, st):
         if i == 0:
@@ -843,6 +868,10 @@ def check_assign(ctx, tu, sy, f, counts):
         locks, known, q, fl, done = st
         ev = sy.event(e)
         n = tu.node(e[1]) if e[0] == 'S' else None
+        if n is not None and n.get('kind') == 'DeclStmt':
+            for v in tu.kids(n):        # a local copy of the argument stands for the argument
+                if v.get('kind') == 'VarDecl' and tu.kids(v) and mentions_any(sy, tu.kids(v)[-1], params):
+                    params.add(v['id'])
         if ev is not None and ev[0] in LOCK_EVENTS:
             locks2, known = lock_step(sy, VAL, T, locks, known, ev, n, found, R4)
             st2 = (locks2, known, q, fl, done)
@@ -860,6 +889,12 @@ def check_assign(ctx, tu, sy, f, counts):
             elif fld == QUEUED:
                 w = sy.plain_write(node)
                 if w is not None and params and mentions_any(sy, w[2], params):
+                    if fl and not q and may_throw(node):
+                        found.viol(R4, FN, 'flag-raised-before-value-stored', 'the flag is already raised when the value is stored into '
+                                   'queuedValue, and this store can throw (%s): if it does, the producer leaves the critical section with '
+                                   'the flag set over a slot that still holds the moved-from remains of the previous update(); the next '
+                                   'update() returns true and installs a value nobody assigned'
+                                   % (tu.sd(node).get('q') or 'payload assignment'), node)
                     return [(locks, known, True, fl, done)]
                 found.und(R4, 'queuedValue is written from something other than the argument', node)
         return [st]
